@@ -105,10 +105,78 @@ func c08RunApplicable(c *mon.Ctx, kind int, pos model.Position) {
 	}
 }
 
+// c08RunOrRuleSets: paired bounds inside the rule-sets of an or rule must be ordered too,
+// whatever the kind of the annotated example (the rule-set describes an alternative of its own).
+func c08RunOrRuleSets(c *mon.Ctx) {
+	type pair struct {
+		lo, hi, typ string
+	}
+	pairs := []pair{{"min", "max", "integer"}, {"minLength", "maxLength", "string"}, {"minItems", "maxItems", "array"}}
+	examples := []func() *model.Node{func() *model.Node { return model.Str("abc") }, func() *model.Node { return model.Int("5") }, func() *model.Node { return model.Bool(true) }}
+	for ei, mk := range examples {
+		for _, p := range pairs {
+			for _, withType := range []bool{false, true} {
+				for _, vals := range [][2]int{{1, 5}, {5, 1}, {3, 3}, {0, 0}, {2, 1}} {
+					for _, pos := range []model.Position{model.PosRoot, model.PosProperty, model.PosItem} {
+						for order := 0; order < 2; order++ {
+							n := mk()
+							var set []*model.Rule
+							mkRule := func(name string, v int) *model.Rule {
+								if name == "min" || name == "max" {
+									return model.RNum(name, fmt.Sprint(v))
+								}
+								return model.RInt(name, v)
+							}
+							set = append(set, mkRule(p.lo, vals[0]), mkRule(p.hi, vals[1]))
+							if order == 1 {
+								set[0], set[1] = set[1], set[0]
+							}
+							if withType {
+								set = append([]*model.Rule{model.RStr("type", p.typ)}, set...)
+							}
+							own := model.OrSet(model.RStr("type", n.Kind.String()))
+							items := []model.OrItem{own, model.OrSet(set...)}
+							if order == 1 {
+								items[0], items[1] = items[1], items[0]
+							}
+							n.Rules = []*model.Rule{model.ROr(items...)}
+							sp := c08Spec(n, pos)
+							obs := lib.Check(sp)
+							c.Eval(1)
+							c.DistinctByConstruction(1)
+							c.Count("or rule-set pair cases", 1)
+							want := "accept"
+							if vals[0] > vals[1] {
+								want = "reject"
+							}
+							if obs.Panic != "" {
+								c.Violate("check", c08Case{sp}, "no panic", obs.String(), "Check panicked")
+								continue
+							}
+							c.Count(fmt.Sprintf("verdict expected=%s observed=%s", want, obs.Verdict()), 1)
+							if obs.Verdict() != want {
+								c.Violate("matrix", c08Case{sp}, want, obs.String(),
+									fmt.Sprintf("Check verdict differs for a paired bound inside an or rule-set (%s/%s = %d/%d)", p.lo, p.hi, vals[0], vals[1]))
+							}
+							if ei == 0 && pos == model.PosRoot && order == 0 && withType && vals[0] == 5 {
+								c.Sample("or rule-set with a reversed pair", map[string]any{"schema": sp.Text, "expected": want})
+							}
+						}
+					}
+				}
+			}
+		}
+	}
+}
+
 func c08Run(c *mon.Ctx, unit int) {
 	nk := len(gen.KindNames)
 	if base := nk * 3 * c08Chunks; unit >= base {
 		u := unit - base
+		if u == nk*3 {
+			c08RunOrRuleSets(c)
+			return
+		}
 		c08RunApplicable(c, u%nk, model.Position(u/nk))
 		return
 	}
@@ -257,7 +325,7 @@ func init() {
 			"differing error codes among rejecting permutations are recorded, not judged (the statement speaks of the verdict)",
 		},
 		Exhaustive: func(string) bool { return true },
-		Units:      func(tier string, seed uint64) int { return len(gen.KindNames)*3*c08Chunks + len(gen.KindNames)*3 },
+		Units:      func(tier string, seed uint64) int { return len(gen.KindNames)*3*c08Chunks + len(gen.KindNames)*3 + 1 },
 		Run:        c08Run,
 		Replay: map[string]func(json.RawMessage) string{
 			"matrix": func(raw json.RawMessage) string {
